@@ -152,6 +152,27 @@ def p1_cases(tier, seed):
                 yield archives.default_case(chain=chain, members=[("@ascii", "random", a), ("@dot", "repetitive", b)], header="raw", block=64, chunk=7, seed=seed)
 
 
+def p5_cases(tier, seed):
+    """Solid folders of 3..5 members whose sizes straddle the (rebound) I/O block in every combination: leftovers of one
+    member's decode are handed to the next, several times in a row, with and without a small extraction chunk."""
+    names = chains.ALL if tier == "thorough" else chains.FAMILIES + chains.FAMILIES_AES
+    import itertools
+
+    sizes = [1, 10, 64, 74, 130]
+    for chain in names:
+        for combo in itertools.product(sizes, repeat=4):
+            if tier == "quick" and (sum(combo) % 3 == 0) and chain not in ("COPY", "DEFLATE", "ZSTD", "LZMA2"):
+                continue  # quick: two thirds of the product for the other chains
+            members = [("@ascii", "random" if k % 2 else "repetitive", s, k + 1) for k, s in enumerate(combo)]
+            for j, m in enumerate(members):
+                members[j] = (f"m{j}.bin",) + m[1:]
+            yield archives.default_case(chain=chain, members=members, header="raw", block=64, chunk=None if sum(combo) % 2 else 7, seed=seed)
+        for combo in ((10, 10, 64, 74, 1), (0, 1, 0, 129, 64), (64, 64, 64, 64, 64), (130, 1, 1, 1, 130), (1, 63, 1, 63, 1)):
+            members = [(f"m{j}.bin", "random", s, j + 1) for j, s in enumerate(combo)]
+            yield archives.default_case(chain=chain, members=members, header="raw", block=64, chunk=None, seed=seed)
+            yield archives.default_case(chain=chain, members=members, header="raw", block=61, chunk=16, seed=seed)
+
+
 def p2_cases(tier, seed):
     names = chains.ALL if tier == "thorough" else chains.FAMILIES + ["LZMA2+AES", "COPY+AES", "X86+BZIP2+AES", "AES"]
     sizes = [32767, 32768, 32769, (1 << 20) - 1, 1 << 20, (1 << 20) + 1] + ([(1 << 21) + 1] if tier == "thorough" else [])
@@ -211,9 +232,9 @@ def shard(task):
     kind, arg = task
     sh = Shard()
     wd = archives.fresh_dir("c01")
-    if kind in ("P1", "P2", "P4"):
+    if kind in ("P1", "P2", "P4", "P5"):
         for case in arg:
-            r = run_case(case, wd)
+            r = run_case(case, wd, modes=("factory",) if kind == "P5" else ("factory", "path"))
             nontrivial = any(m[2] > 0 for m in case["members"])
             sh.case(case, nontrivial=nontrivial, sample=case if len(sh.samples) < 1 else None)
             sh.note("chains", case["chain"])
@@ -253,11 +274,11 @@ def replay(case):
 def main(tier="quick", seed=0, only=None):
     chk = Check("C01", "exploration", MODULE, tier, seed)
     tasks = []
-    planes = {"P1": list(p1_cases(tier, seed)), "P2": list(p2_cases(tier, seed)), "P4": list(p4_cases(tier, seed))}
+    planes = {"P1": list(p1_cases(tier, seed)), "P2": list(p2_cases(tier, seed)), "P4": list(p4_cases(tier, seed)), "P5": list(p5_cases(tier, seed))}
     for name, cases in planes.items():
         if only and name not in only:
             continue
-        per = {"P1": 60, "P2": 6, "P4": 20}[name]
+        per = {"P1": 60, "P2": 6, "P4": 20, "P5": 150}[name]
         tasks += [(name, c) for c in chunks(cases, per)]
     bound = 2 if tier == "quick" else 3
     if not only or "P3" in only:
@@ -277,7 +298,7 @@ def main(tier="quick", seed=0, only=None):
             "S(64) x textures, and 25 two-member solid lists, with the I/O block rebound to 64 and 61 bytes and the extraction chunk to 7; "
             "P2: chains x sizes around 32 KiB and 1 MiB at the real constants; P3: choice-tree exploration of (chain, header mode, target "
             f"kind incl. multi-volume 64/100/4096, member count 0..3, name class, size, chunk limit, writestr/writef) with <= {bound} "
-            "deviations from (LZMA2, encoded, BytesIO, one ASCII member); P4: every documented parameter value. Each case is written by "
+            "deviations from (LZMA2, encoded, BytesIO, one ASCII member); P4: every documented parameter value; P5: solid folders of 4..5 members over the full product of sizes {1,10,64,74,130} around a 64-byte block, with and without a 7-byte extraction chunk. Each case is written by "
             "py7zr, reopened, and compared by getnames, extractall(factory) and extractall(path). Distinct by case digest; non-trivial = "
             "at least one non-empty member reached the byte comparison."
         ),
